@@ -1,7 +1,7 @@
 --------------------------------- MODULE AdtMC ---------------------------------
 (* Model checking of the abstract data types themselves (C18) and export of     *)
 (* behaviours: TLC enumerates every operation sequence of length Depth over a   *)
-(* small alphabet for one container (constant Comp), checks the sanity          *)
+(* small alphabet for each container in Comps, checks the sanity          *)
 (* invariants of the abstract type in every state and prints each maximal       *)
 (* behaviour as an operation script <<"BEH", hist>>.  The scripts are executed  *)
 (* on the real container by harness/adt.cpp (script mode) and the recorded      *)
@@ -9,14 +9,18 @@
 (* Operation tuples have the layout the harness and the contracts use.          *)
 EXTENDS AdtLib
 
-CONSTANTS Comp,    \* "tree" | "list" | "vector" | "bitset"
-          Depth,   \* length of every exported behaviour
-          K        \* alphabet size (keys / node ids / sizes)
+CONSTANTS Comps,          \* subset of {"tree", "list", "vector", "bitset"} explored in this run
+          DTree, DList, DVec, DBit,   \* length of every exported behaviour, per container
+          KTree, KList     \* alphabet size (keys / list node ids)
 
-VARIABLES hist, m
-vars == <<hist, m>>
+VARIABLES Comp, hist, m
+vars == <<Comp, hist, m>>
 
-Init == /\ hist = <<>>
+Depth == CASE Comp = "tree" -> DTree [] Comp = "list" -> DList [] Comp = "vector" -> DVec [] Comp = "bitset" -> DBit
+K == CASE Comp = "tree" -> KTree [] Comp = "list" -> KList [] OTHER -> 0
+
+Init == /\ Comp \in Comps
+        /\ hist = <<>>
         /\ m = CASE Comp = "tree" -> {}
                  [] Comp = "list" -> <<>>
                  [] Comp = "vector" -> <<>>
@@ -58,6 +62,7 @@ BitNext == \/ \E n \in Sizes, v \in 0 .. 1 :
            \/ \E n \in {1, 64, 65} : n < m.size /\ Do(<<"truncate", 1, n, 0>>, [size |-> n, bits |-> {x \in m.bits : x < n}])
 
 Next == /\ Len(hist) < Depth
+        /\ UNCHANGED Comp
         /\ CASE Comp = "tree" -> TreeNext [] Comp = "list" -> ListNext
              [] Comp = "vector" -> VecNext [] Comp = "bitset" -> BitNext
 Spec == Init /\ [][Next]_vars
@@ -67,5 +72,5 @@ Sane == CASE Comp = "tree" -> m \subseteq 1 .. K /\ Cardinality(m) <= Len(hist)
           [] Comp = "list" -> NoDup(m) /\ Range(m) \subseteq 1 .. K
           [] Comp = "vector" -> Len(m) <= 6 + Len(hist) /\ \A i \in DOMAIN m : m[i] <= Len(hist)
           [] Comp = "bitset" -> m.bits \subseteq 0 .. m.size - 1
-Export == Len(hist) = Depth => PrintT(<<"BEH", hist>>)
+Export == Len(hist) = Depth => PrintT(<<"BEH", Comp, hist>>)
 =============================================================================
